@@ -105,6 +105,36 @@ Proof.
   destruct C04_layerB_hyps as (V & E & Sf). exact (same_sides_law M_hist V E Sf).
 Qed.
 
+(** Shape of the results, for every valid matching function: [merge] returns a resolved merge
+    or one of the input's arity; [merge_hunks] is [Resolved c] exactly when [try_merge] is
+    [Some c], and then [merge] is the resolved [c]; for more than one term, [merge] is resolved
+    only then. Every hunk is either one slice of one input, chosen by [trivial_merge], or the
+    full vector of that hunk's slices in term order (hunks come in input order: they are the
+    images of the diff's hunks, which partition every input - C03). *)
+Theorem C04_shape : forall M,
+  (forall a b, valid_matching (length a) (length b) (M a b)) ->
+  forall (accept word : bool) (terms : list bytes),
+  Nat.odd (length terms) = true ->
+  let r := merge M accept word terms in
+  (length r = 1 \/ length r = length terms)
+  /\ (forall c, try_merge M accept word terms = Some c <-> merge_hunks M accept word terms = Resolved c)
+  /\ (forall c, try_merge M accept word terms = Some c -> r = [c])
+  /\ (1 < length terms -> (length r = 1 <-> exists c, try_merge M accept word terms = Some c)).
+Proof. exact shape_thm. Qed.
+
+Theorem C04_hunk_shape : forall M,
+  (forall a b, valid_matching (length a) (length b) (M a b)) ->
+  forall (accept : bool) (terms : list bytes) (h : hunk),
+  Nat.odd (length terms) = true ->
+  In h (hunks (run_steps M line_steps (diff_inputs terms))) ->
+  let ins := diff_inputs terms in
+  let cs := contents ins (snd h) in
+  let r := resolve_hunk accept (length (odds terms)) ins h in
+  (exists c, r = [c] /\ In c cs)
+  \/ (r = from_removes_adds (firstn (length (odds terms)) cs) (skipn (length (odds terms)) cs)
+      /\ length r = length terms /\ 1 < length terms).
+Proof. exact resolve_hunk_shape. Qed.
+
 (** Identical sides over two different bases are two different changes and stay conflicted
     (the documented meaning of "same change"): the general identical-sides law is false. *)
 Theorem C04_same_sides_general_refuted :
@@ -129,3 +159,4 @@ Print Assumptions C04_cancel_law.
 Print Assumptions C04_same_sides.
 Print Assumptions C04_laws_okb_spec.
 Print Assumptions C04_cancel_law_hist.
+Print Assumptions C04_shape.
